@@ -44,7 +44,7 @@ def space(tier):
     seen = set(p1)
     g2 = G.Grammar(accs=("acc1", "acc2"), calls=("CALL", "LLVMCALL"), whiles=True, max_depth=b["nesting"])
     p2 = [p for p in g2.programs(b["nodes_two_acc"]) if G.has_launch(p) and p not in seen]
-    progs = p1 + p2
+    progs = p1 + p2 + G.skeletons("acc1")
     return [(p, v) for p in progs for v in ("trace", "trace+dedup+trace")]
 
 
